@@ -5,7 +5,7 @@
    on the model inside Coq. *)
 From Coq Require Import List Arith Permutation.
 Import ListNotations.
-From LSF Require Import Join JoinProofs.
+From LSF Require Import Join JoinProofs JoinCaught JoinCaughtProofs.
 
 (* whatever order the branches finish in, slot i holds the output of branch i *)
 Theorem C05_order_independent : forall (A : Type) (vs : list A) (d : A) (order : list nat),
@@ -45,6 +45,22 @@ Theorem C05_inflight_bounded : forall (A : Type) mc n (l : list (nat * A)) s,
   mc <> 0 -> jrun mc (jinit mc n) l = Some s -> length (inflight s) <= mc.
 Proof. exact @inflight_bounded_always. Qed.
 
+(* with the marker that handle_error leaves in the slot of a branch whose failing state was caught by its own Catch:
+   the join is announced only when every slot holds an output, and carries exactly those outputs *)
+Theorem C05_join_only_when_all_done : forall (A : Type) mc (r : list (slot A)) s e r' res,
+  ccollect mc r s e = (r', CJoin res) -> all_done r' = true /\ res = dones r'.
+Proof. exact @join_only_when_all_done. Qed.
+
+(* a marked slot blocks the join whatever the other branches report *)
+Theorem C05_caught_slot_blocks_join : forall (A : Type) mc (r : list (slot A)) s i v j r' res,
+  j < length r -> j <> i -> nth_error r j = Some SCaught -> ccollect mc r s (BDone i v) <> (r', CJoin res).
+Proof. exact @caught_slot_blocks_join. Qed.
+
+(* in every history of reports (marks and outputs in any order and number) a join that is announced carries one output per branch *)
+Theorem C05_joins_are_complete : forall (A : Type) (evs : list (bev A)) r res,
+  In (CJoin res) (snd (crun r evs)) -> length res = length r.
+Proof. exact @joins_are_complete. Qed.
+
 (* a run of 5 items with MaxConcurrency 2 finishing out of order *)
 Example C05_example :
   exists s, jrun 2 (jinit 2 5) [(1, 11); (0, 10); (3, 13); (2, 12); (4, 14)] = Some s /\ somes (res s) = [10; 11; 12; 13; 14] /\ launched s = [0; 1; 2; 3; 4].
@@ -57,3 +73,6 @@ Print Assumptions C05_join_iff_no_slot_empty.
 Print Assumptions C05_each_item_once.
 Print Assumptions C05_next_block_after_current.
 Print Assumptions C05_inflight_bounded.
+Print Assumptions C05_join_only_when_all_done.
+Print Assumptions C05_caught_slot_blocks_join.
+Print Assumptions C05_joins_are_complete.
